@@ -34,7 +34,7 @@ vars == <<objs, arrs, last, hist>>
 NA == <<97>>          \* the byte-valued field
 NM == <<109>>         \* the field of sub-Message references
 TB == TCOf(Inst)
-Vals == CASE Inst = "int16" -> {<<1, 128>>, <<254, 255>>} [] Inst = "string" -> {<<>>, <<195, 169, 255, 113, 114, 115, 116, 117, 118, 119, 120, 121, 122, 113, 114, 115, 116>>} [] OTHER -> {<<>>, <<0, 255, 7>>}
+Vals == CASE Inst = "int16" -> {<<1, 128>>, <<254, 255>>} [] Inst = "string" -> {<<>>, <<195, 169, 240, 159, 152, 128, 113, 114, 115, 116, 117, 118, 119, 120, 121, 122, 113, 114, 115, 116>>} [] OTHER -> {<<>>, <<0, 255, 7>>}
 Whats == {<<1, 2, 3, 132>>, <<0, 0, 0, 0>>}
 Objs == 1..NObj
 
